@@ -643,6 +643,44 @@ func c18Run(t *testing.T, r *sim.Run, tier string) {
 			}
 		}
 	}
+	// concurrent callers: two tasks compute summaries for two independently built copies of the series at the
+	// same time (under the seeded scheduler); each must get the sequential numbers
+	if T.Intn(6, "concurrent-summaries") == 0 && len(refCSS) > 0 {
+		var copies [][]*ComparisonSeries
+		for i := 0; i < 2; i++ {
+			c, _ := sBuild(t, r, s, T.Perm(len(s.results), "add-order"), withTable, policy, false)
+			copies = append(copies, c)
+		}
+		r.Bubble(t, 400000, func(sc *sim.Sched) {
+			for i := range copies {
+				cp := copies[i]
+				sc.Go(fmt.Sprintf("summariser%d", i), 1, func() {
+					for _, cs := range cp {
+						cs.AddSummaries(conf, 50)
+					}
+				})
+			}
+			sc.Loop()
+		})
+		seq, _ := sBuild(t, r, s, T.Perm(len(s.results), "add-order"), withTable, policy, false)
+		for _, cs := range seq {
+			cs.AddSummaries(conf, 50)
+		}
+		for ci := range seq {
+			for si := range seq[ci].Series {
+				for bi := range seq[ci].Benchmarks {
+					want := seq[ci].Summaries[si][bi]
+					for i, cp := range copies {
+						got := cp[ci].Summaries[si][bi]
+						if got.Present != want.Present || got.Low != want.Low || got.Center != want.Center || got.High != want.High {
+							r.Fail("bootstrap", "not-reproducible-under-concurrent-callers", "summary of %q at %q computed by task %d concurrently with another AddSummaries is %+v, sequentially %+v", seq[ci].Benchmarks[bi], seq[ci].Series[si], i, *got, *want)
+						}
+					}
+				}
+			}
+		}
+		r.Hit("summaries computed by two tasks concurrently")
+	}
 	// date normalisation: every spelling of an instant normalises to the same string; normalised strings sort chronologically
 	var insts []time.Time
 	insts = append(insts, s.exps...)
